@@ -151,6 +151,24 @@ static std::string step(const std::vector<std::string> &t) {
             else visitors.push_back(std::make_unique<DirectoryVisitor>(Path(d[0] == '/' ? (d == "/" ? root : root + d) : d)));
             return cwdLine();
         }
+        // the top visitor is used again / the working directory changes by other means
+        if (op == "dv_restore") {
+            if (visitors.empty()) return "!no-visitor";
+            visitors.back()->restore();
+            return cwdLine();
+        }
+        if (op == "dv_visit") {
+            if (visitors.empty()) return "!no-visitor";
+            std::string d = unhex(t[2]);
+            visitors.back()->set(Path(d[0] == '/' ? (d == "/" ? root : root + d) : d));
+            visitors.back()->visit();
+            return cwdLine();
+        }
+        if (op == "chdir") {
+            std::string d = unhex(t[2]);
+            Path::setWorkingDirectory(Path(d[0] == '/' ? (d == "/" ? root : root + d) : d));
+            return cwdLine();
+        }
         if (op == "dv_pop") {
             if (visitors.empty()) return "!no-visitor";
             visitors.pop_back();
